@@ -13,6 +13,7 @@ import (
 	"sort"
 	"strconv"
 	"strings"
+	"sync/atomic"
 	"syscall"
 	"testing"
 	"testing/synctest"
@@ -83,6 +84,8 @@ func runOne(t *testing.T, def *CheckDef, tier string, seed int64, tape *Tape, ke
 		fmt.Println("KEEP", dir)
 	}
 	r := newRun(def.ID, tier, seed, tape, dir)
+	curRun.Store(r)
+	defer curRun.Store(nil)
 	// The collector is off while a bubble runs: a GC cycle makes the running
 	// goroutine yield at its next function call, which reorders goroutines
 	// that are runnable at the same instant and would break replay.
@@ -153,6 +156,9 @@ func (r *Run) fillResult(res *RunResult, def *CheckDef, keepTrace bool) {
 // leave locks held (the bubble can no longer be drained): the violation is
 // written out and the process ends. Set by SimMain.
 var onFatal func(r *Run)
+
+// curRun is the run in progress (for the watchdog).
+var curRun atomic.Pointer[Run]
 
 func (r *Run) teardown() {
 	r.simElapsed = time.Since(r.simStart)
@@ -571,6 +577,12 @@ func watchdog() {
 			buf := make([]byte, 4<<20)
 			n := runtime.Stack(buf, true)
 			dump := string(buf[:n])
+			// A run that had already recorded a violation and then cannot be torn
+			// down (the system under test is wedged) still reports its violation.
+			if cur := curRun.Load(); cur != nil && cur.Failed() && onFatal != nil {
+				fmt.Fprintf(os.Stderr, "WATCHDOG: the run hung after its violation was recorded; reporting the violation\n")
+				onFatal(cur)
+			}
 			if fn := sutSpinning(dump); fn != "" {
 				// A goroutine of the bubble is busy inside LiteFS and nothing else
 				// moves: the system under test hangs. That is a finding, not
